@@ -124,14 +124,23 @@ func checkpath(file string) string {
 
 	privfile := file
 	if IsAnyBitsSet(Lprivacypath) {
+		// Only the innermost registered directory the file lies in is
+		// replaced: the result must not depend on the iteration order of
+		// the table, and rewriting an outer directory first would leave
+		// the name of a nested one (the home directory below "/", say)
+		// in the clear.
+		dir, repl, depth := "", "", -1
 		for k, v := range knownPathMap {
-			privfile = replacePathPrefix(privfile, k, v)
+			if n := pathPrefixLen(file, k); n > depth || (n == depth && k < dir) {
+				dir, repl, depth = k, v, n
+			}
 		}
-		if _, ok := knownPathMap[homeDir]; !ok {
+		if _, ok := knownPathMap[homeDir]; !ok && pathPrefixLen(file, homeDir) > depth {
 			// the home directory stays hidden even after its mapping was
 			// removed or the table was reset
-			privfile = replacePathPrefix(privfile, homeDir, "~")
+			dir, repl = homeDir, "~"
 		}
+		privfile = replacePathPrefix(privfile, dir, repl)
 
 		if IsAnyBitsSet(Lprivacypathregexp) {
 			for _, rpl := range knownPathRegexpMap {
@@ -162,14 +171,23 @@ func checkpath(file string) string {
 // "/home/u/a.go" but not of "/home/user/a.go", and occurrences further
 // inside the path are left alone.
 func replacePathPrefix(file, dir, repl string) string {
+	if n := pathPrefixLen(file, dir); n >= 0 {
+		return repl + file[n:]
+	}
+	return file
+}
+
+// pathPrefixLen returns how many leading bytes of file make up the
+// directory dir, or -1 if file does not lie in dir.
+func pathPrefixLen(file, dir string) int {
 	if dir == "" {
-		return file
+		return -1
 	}
 	d := strings.TrimRight(dir, "/")
 	if file == dir || strings.HasPrefix(file, d+"/") {
-		return repl + file[len(d):]
+		return len(d)
 	}
-	return file
+	return -1
 }
 
 func checkedfuncname(name string) string {
